@@ -2,9 +2,16 @@
 
 //@@ octo-squirrel/src/protocol/address.rs:9-13  enum Address  sha=d701f69e752e0952
 #[derive(PartialEq, Eq, Clone)]
-enum Address {
+pub enum Address {
     Domain(String, u16),
     Socket(SocketAddr),
+}
+
+//@@ octo-squirrel/src/protocol/address.rs:56-60  impl From for Address  sha=3ef1d03c02fbf299
+impl From<SocketAddr> for Address {
+    fn from(value: SocketAddr) -> Self {
+        Address::Socket(value)
+    }
 }
 
 //@@ octo-squirrel/src/protocol/socks5.rs:9-9  const VERSION  sha=31c82d410f6df766
@@ -12,7 +19,7 @@ const VERSION: u8 = 5;
 
 //@@ octo-squirrel/src/protocol/socks5.rs:11-15  enum Socks5CommandStatus  sha=a67902fd29d73d0f
 #[derive(PartialEq, Eq, Clone, Copy)]
-enum Socks5CommandStatus {
+pub enum Socks5CommandStatus {
     Success,
     Failure,
 }
@@ -34,7 +41,7 @@ impl TryFrom<u8> for Socks5CommandStatus {
 
 //@@ octo-squirrel/src/protocol/socks5.rs:31-36  enum Socks5AddressType  sha=6571f459743d9f1b
 #[derive(PartialEq, Eq, Clone, Copy)]
-enum Socks5AddressType {
+pub enum Socks5AddressType {
     Ipv4 = 1,
     Domain = 3,
     Ipv6 = 4,
@@ -59,7 +66,7 @@ impl TryFrom<u8> for Socks5AddressType {
 
 //@@ octo-squirrel/src/protocol/socks5.rs:54-59  enum Socks5CommandType  sha=dc476d448b8347ac
 #[derive(PartialEq, Copy, Clone)]
-enum Socks5CommandType {
+pub enum Socks5CommandType {
     Connect = 1,
     Bind = 2,
     UdpAssociate = 3,
@@ -82,7 +89,7 @@ impl Socks5CommandType {
 
 //@@ octo-squirrel/src/protocol/socks5.rs:75-81  enum Socks5AuthMethod  sha=6d6099cb2a681b28
 #[derive(PartialEq, Eq, Clone, Copy)]
-enum Socks5AuthMethod {
+pub enum Socks5AuthMethod {
     NoAuth,
     Gssapi,
     Password,
@@ -186,7 +193,7 @@ fn address__try_decode_at(src: &BytesMut, at: usize) -> Result<usize> {
 }
 
 //@@ octo-squirrel/src/protocol/socks5/message.rs:15-17  struct Socks5InitialRequest  sha=1f38e54f5ce6f2db
-struct Socks5InitialRequest {
+pub struct Socks5InitialRequest {
     auth_methods: Vec<Socks5AuthMethod>,
 }
 
@@ -209,8 +216,8 @@ impl Socks5InitialRequest {
 }
 
 //@@ octo-squirrel/src/protocol/socks5/message.rs:34-36  struct Socks5InitialResponse  sha=a0c0c6134306fe8c
-struct Socks5InitialResponse {
-    auth_method: Socks5AuthMethod,
+pub struct Socks5InitialResponse {
+    pub auth_method: Socks5AuthMethod,
 }
 
 //@@ octo-squirrel/src/protocol/socks5/message.rs:38-42  impl Socks5InitialResponse  sha=7a6280ab6a32c0a3
@@ -230,9 +237,9 @@ impl Socks5InitialResponse {
 
 //@@ octo-squirrel/src/protocol/socks5/message.rs:51-55  struct Socks5CommandRequest  sha=130272c42a34f604
 #[derive(PartialEq, Clone)]
-struct Socks5CommandRequest {
-    command_type: Socks5CommandType,
-    dst_addr: Address,
+pub struct Socks5CommandRequest {
+    pub command_type: Socks5CommandType,
+    pub dst_addr: Address,
 }
 
 //@@ octo-squirrel/src/protocol/socks5/message.rs:57-61  impl Socks5CommandRequest  sha=1349fbb1a81b1852
@@ -253,9 +260,9 @@ impl Socks5CommandRequest {
 }
 
 //@@ octo-squirrel/src/protocol/socks5/message.rs:72-75  struct Socks5CommandResponse  sha=1824c387399e2856
-struct Socks5CommandResponse {
-    command_status: Socks5CommandStatus,
-    bnd_addr: Address,
+pub struct Socks5CommandResponse {
+    pub command_status: Socks5CommandStatus,
+    pub bnd_addr: Address,
 }
 
 //@@ octo-squirrel/src/protocol/socks5/message.rs:77-84  impl Socks5Message for Socks5CommandResponse  sha=ebab27fe779588e9
@@ -276,7 +283,7 @@ impl Socks5CommandResponse {
 }
 
 //@@ octo-squirrel/src/protocol/socks5/codec.rs:42-42  struct Socks5InitialRequestDecoder  sha=afb7b11cbafe5eb2
-struct Socks5InitialRequestDecoder;
+pub struct Socks5InitialRequestDecoder;
 
 //@@ octo-squirrel/src/protocol/socks5/codec.rs:44-64  impl Decoder for Socks5InitialRequestDecoder  sha=728eea90ebc48856
 impl Socks5InitialRequestDecoder {
@@ -299,7 +306,7 @@ impl Socks5InitialRequestDecoder {
 }
 
 //@@ octo-squirrel/src/protocol/socks5/codec.rs:66-66  struct Socks5CommandRequestDecoder  sha=d53c7fcfd58b0c29
-struct Socks5CommandRequestDecoder;
+pub struct Socks5CommandRequestDecoder;
 
 //@@ octo-squirrel/src/protocol/socks5/codec.rs:68-86  impl Decoder for Socks5CommandRequestDecoder  sha=0cf4f3ed562e5442
 impl Socks5CommandRequestDecoder {
@@ -320,7 +327,7 @@ impl Socks5CommandRequestDecoder {
 }
 
 //@@ octo-squirrel/src/protocol/socks5/codec.rs:88-88  struct Socks5InitialResponseDecoder  sha=c052d73bb6a96e4f
-struct Socks5InitialResponseDecoder;
+pub struct Socks5InitialResponseDecoder;
 
 //@@ octo-squirrel/src/protocol/socks5/codec.rs:90-105  impl Decoder for Socks5InitialResponseDecoder  sha=11560866b116d94f
 impl Socks5InitialResponseDecoder {
@@ -338,7 +345,7 @@ impl Socks5InitialResponseDecoder {
 }
 
 //@@ octo-squirrel/src/protocol/socks5/codec.rs:107-107  struct Socks5CommandResponseDecoder  sha=70bbae6b1f6a9f5e
-struct Socks5CommandResponseDecoder;
+pub struct Socks5CommandResponseDecoder;
 
 //@@ octo-squirrel/src/protocol/socks5/codec.rs:109-127  impl Decoder for Socks5CommandResponseDecoder  sha=856e5fee1ca728c7
 impl Socks5CommandResponseDecoder {
@@ -359,7 +366,7 @@ impl Socks5CommandResponseDecoder {
 }
 
 //@@ octo-squirrel/src/protocol/socks5/codec.rs:129-129  struct Socks5UdpCodec  sha=0d7428243bf68631
-struct Socks5UdpCodec;
+pub struct Socks5UdpCodec;
 
 //@@ octo-squirrel/src/protocol/socks5/codec.rs:131-150  impl Decoder for Socks5UdpCodec  sha=d32cc3de6bd24cdb
 impl Socks5UdpCodec {
@@ -393,7 +400,7 @@ impl Socks5UdpCodec {
 
 //@@ octo-squirrel/src/codec/aead.rs:124-142  enum CipherKind  sha=0afd87d0c4335287
 #[derive(Default, Clone, Copy, PartialEq, Eq)]
-enum CipherKind {
+pub enum CipherKind {
     Aes128Gcm,
     Aes256Gcm,
     ChaCha20Poly1305,
@@ -423,7 +430,7 @@ impl CipherKind {
 }
 
 //@@ octo-squirrel/src/codec/aead.rs:227-229  struct IncreasingNonceGenerator  sha=b1f1450b94bc35d8
-struct IncreasingNonceGenerator {
+pub struct IncreasingNonceGenerator {
     nonce: [u8; 12],
 }
 
@@ -445,7 +452,7 @@ impl IncreasingNonceGenerator {
 }
 
 //@@ octo-squirrel/src/codec/shadowsocks.rs:19-22  struct Authenticator  sha=018fa4f56150a551
-struct Authenticator {
+pub struct Authenticator {
     method: CipherMethod,
     nonce_generator: IncreasingNonceGenerator,
 }
@@ -480,7 +487,7 @@ impl Authenticator {
 }
 
 //@@ octo-squirrel/src/codec/shadowsocks.rs:52-55  struct ChunkEncoder  sha=2ce2dd80a39b132e
-struct ChunkEncoder {
+pub struct ChunkEncoder {
     payload_limit: usize,
     auth: Authenticator,
 }
@@ -522,7 +529,7 @@ enum DecodeState {
 }
 
 //@@ octo-squirrel/src/codec/shadowsocks.rs:106-109  struct ChunkDecoder  sha=4f49b54d4d0533b2
-struct ChunkDecoder {
+pub struct ChunkDecoder {
     auth: Authenticator,
     state: DecodeState,
 }
@@ -576,7 +583,7 @@ impl ChunkDecoder {
 
 //@@ octo-squirrel/src/protocol/shadowsocks.rs:1-5  enum Mode  sha=157d6a8583fec583
 #[derive(Copy, Clone)]
-enum Mode {
+pub enum Mode {
     Client,
     Server,
 }
@@ -599,10 +606,10 @@ impl Mode {
 }
 
 //@@ octo-squirrel/src/manager/shadowsocks.rs:57-62  struct ServerUser  sha=2aac52e3ac4f8a54
-struct ServerUser<const N: usize> {
-    name: String,
-    key: [u8; N],
-    identity_hash: [u8; 16],
+pub struct ServerUser<const N: usize> {
+    pub name: String,
+    pub key: [u8; N],
+    pub identity_hash: [u8; 16],
 }
 
 //@@ octo-squirrel/src/manager/shadowsocks.rs:64-68  impl ServerUser  sha=c287001fd705f8df
@@ -717,7 +724,7 @@ fn a22tcp__new_decoder_with_eih<const N: usize>(
 }
 
 //@@ octo-squirrel/src/codec/shadowsocks/tcp.rs:29-35  struct Context  sha=f38c8bead60f1e38
-struct Context<const N: usize> {
+pub struct Context<const N: usize> {
     key: [u8; N],
     identity_keys: Vec<[u8; N]>,
     kind: CipherKind,
@@ -736,7 +743,7 @@ impl<const N: usize> Context<N> {
 
 //@@ octo-squirrel/src/codec/shadowsocks/tcp.rs:61-65  struct AEADCipherCodec  sha=b91e742ceaa32d23
 #[derive(Default)]
-struct AEADCipherCodec<const N: usize> {
+pub struct AEADCipherCodec<const N: usize> {
     encoder: Option<ChunkEncoder>,
     decoder: Option<ChunkDecoder>,
 }
@@ -919,10 +926,10 @@ impl<const N: usize> AEADCipherCodec<N> {
 }
 
 //@@ octo-squirrel/src/codec/shadowsocks/tcp.rs:243-250  struct Session  sha=1392850d69a201bf
-struct Session<const N: usize> {
+pub struct Session<const N: usize> {
     mode: Mode,
     identity: Identity<N>,
-    address: Option<Address>,
+    pub address: Option<Address>,
     }
 
 //@@ octo-squirrel/src/codec/shadowsocks/tcp.rs:252-256  impl Session  sha=21df35fa41e24243
@@ -933,10 +940,10 @@ impl<const N: usize> Session<N> {
 }
 
 //@@ octo-squirrel/src/codec/shadowsocks/tcp.rs:258-262  struct Identity  sha=1d0a7a0e004ea6f4
-struct Identity<const N: usize> {
-    salt: [u8; N],
-    request_salt: Option<[u8; N]>,
-    user: Option<ServerUser<N>>,
+pub struct Identity<const N: usize> {
+    pub salt: [u8; N],
+    pub request_salt: Option<[u8; N]>,
+    pub user: Option<ServerUser<N>>,
 }
 
 //@@ octo-squirrel/src/manager/packet_window.rs:9-9  const BLOCK_BIT_LOG  sha=81c72e81da244832
@@ -971,7 +978,7 @@ const BIT_MASK: u64 = 63;
 //@@ octo-squirrel/src/manager/packet_window.rs:17-21  struct PacketWindowFilter  sha=14e3705de7718919
 /// Packet window for checking `packet_id` is in the sliding window
 #[derive(Clone)]
-struct PacketWindowFilter {
+pub struct PacketWindowFilter {
     last_packet_id: u64,
     packet_ring: [u64; RING_BLOCKS as usize],
 }
@@ -1035,7 +1042,7 @@ impl PacketWindowFilter {
 }
 
 //@@ octo-squirrel/src/codec/shadowsocks/udp.rs:34-36  struct AEADCipherCodec  sha=f8e930065e2a4dbb
-struct udp__AEADCipherCodec<const N: usize> {
+pub struct udp__AEADCipherCodec<const N: usize> {
     kind: CipherKind,
 }
 
@@ -1089,10 +1096,10 @@ impl<const N: usize> udp__AEADCipherCodec<N> {
 }
 
 //@@ octo-squirrel/src/codec/shadowsocks/udp.rs:343-343  type SessionPacket  sha=2a9212c2fdd9b1f5
-type udp__SessionPacket<const N: usize> = (BytesMut, Address, udp__Session<N>);
+pub type udp__SessionPacket<const N: usize> = (BytesMut, Address, udp__Session<N>);
 
 //@@ octo-squirrel/src/codec/shadowsocks/udp.rs:345-348  struct SessionCodec  sha=3689553d9c2c80f8
-struct udp__SessionCodec<'a, const N: usize> {
+pub struct udp__SessionCodec<'a, const N: usize> {
     context: udp__Context<'a, N>,
     cipher: udp__AEADCipherCodec<N>,
 }
@@ -1120,7 +1127,7 @@ impl<'a, const N: usize> udp__SessionCodec<'a, N> {
 }
 
 //@@ octo-squirrel/src/codec/shadowsocks/udp.rs:371-377  struct Context  sha=1530ebc6b918883e
-struct udp__Context<'a, const N: usize> {
+pub struct udp__Context<'a, const N: usize> {
     stream_type: Mode,
     user_manager: Option<Arc<ServerUserManager<N>>>,
     key: &'a [u8],
@@ -1140,11 +1147,11 @@ impl<const N: usize> udp__Context<'_, N> {
 }
 
 //@@ octo-squirrel/src/codec/shadowsocks/udp.rs:390-396  struct Session  sha=f14d3bc94bb4d5cf
-struct udp__Session<const N: usize> {
-    client_session_id: u64,
-    server_session_id: u64,
-    packet_id: u64,
-    user: Option<Arc<ServerUser<N>>>,
+pub struct udp__Session<const N: usize> {
+    pub client_session_id: u64,
+    pub server_session_id: u64,
+    pub packet_id: u64,
+    pub user: Option<Arc<ServerUser<N>>>,
 }
 
 //@@ octo-squirrel/src/codec/shadowsocks/udp.rs:398-406  impl Session  sha=79c481f875a751f4
@@ -1176,7 +1183,7 @@ fn to_inbound_recv(item: (DatagramPacket, SocketAddr), verif_arg2: &Address, sen
     }
 
 //@@ octo-squirrel-client/src/client/shadowsocks.rs:147-151  mod udp / struct DatagramPacketCodec  sha=a064ded263e50c89
-struct DatagramPacketCodec<'a, const N: usize> {
+pub struct DatagramPacketCodec<'a, const N: usize> {
         codec: udp__SessionCodec<'a, N>,
         session: udp__Session<N>,
         filter: PacketWindowFilter,
